@@ -138,6 +138,7 @@ func init() {
 	if p := os.Getenv("ELKPATH"); p != "" {
 		env.ELKPATH = p
 	}
+	simhook.Debug = os.Getenv("SIM_DEBUG") != ""
 }
 
 // Env is what a simulated body gets.
